@@ -77,7 +77,7 @@ for f in sorted(SRC.glob(glob)):
                 continue
         elif key in results:
             continue
-        S = Path(tempfile.mkdtemp(prefix='mut-', dir='/var/tmp'))
+        S = Path(tempfile.mkdtemp(prefix='mut-' + (os.environ.get('MUT_CHECKS') or 'all').replace(',', '+') + '-', dir='/var/tmp'))
         try:
             shutil.copytree('/repo/src', S / 'src')
             shutil.copytree('/repo/tests', S / 'tests')
